@@ -701,7 +701,7 @@ def subscript(it, base, idx, node):
             return join_values([base[k] for k in maybe])
         try:
             if idx in base:
-                return base[idx]
+                return materialise(it, base[idx], node)
         except TypeError:
             it.may_raise("TypeError", node, "unhashable key", certain=True)
         it.may_raise("KeyError", node, f"key {idx!r}", certain=True, witness=idx)
@@ -1057,6 +1057,19 @@ def value_attr(it, base, name, node):
     if isinstance(b, int):
         raise _CE(f"int attribute {name}")
     raise _CE(f"attribute {name} of {b!r}")
+
+
+class LazyInstance:
+    """Table entry standing for 'the instance created at import': materialised fresh per lookup."""
+
+    def __init__(self, cls):
+        self.cls = cls
+
+
+def materialise(it, v, node=None):
+    if isinstance(v, LazyInstance):
+        return it.instantiate(v.cls, [], {}, node)
+    return v
 
 
 class MatchVal:
